@@ -47,6 +47,18 @@ inline void fz_nt(uint64_t h) { stats().nt(h); }
 			vf::fz_oracle_fail(__FILE__, __LINE__, #cond, vf::str(__VA_ARGS__));     \
 	} while (0)
 
+#ifndef VF_FUZZ_OWN_INIT
+// asl's global Console object installs SIGINT/SIGTERM handlers that call exit(); libFuzzer never replaces an existing
+// handler, so a stop request would end in "fuzz target exited" and a bogus crash- artifact. LLVMFuzzerInitialize runs
+// before libFuzzer installs its handlers: give it the default dispositions back.
+extern "C" int LLVMFuzzerInitialize(int*, char***)
+{
+	signal(SIGINT, SIG_DFL);
+	signal(SIGTERM, SIG_DFL);
+	return 0;
+}
+#endif
+
 extern "C" int LLVMFuzzerTestOneInput(const uint8_t* data, size_t size)
 {
 	vf::FzState& s = vf::fz();
